@@ -37,8 +37,10 @@ def val(v: int):
 
 
 def ident(e) -> int:
-    a = e["a"]
-    return int(np.asarray(a).reshape(-1)[0])
+    x = np.asarray(e["a"]).reshape(-1)[0]
+    if isinstance(x, (bytes, np.bytes_)):
+        x = x.decode()
+    return int(float(x))        # (npz may have turned a mixed column into floats or text)
 
 
 def read_ids(d, split="train", **kw):
